@@ -282,13 +282,18 @@ def array_contract_path(
     )
 
     if cache and can_hash_optimize(optimize.__class__):
-        key = hash_contraction(inputs, output, size_dict, optimize)
         try:
-            path = _PATH_CACHE[key]
-        except KeyError:
-            path = _PATH_CACHE[key] = find_path(
-                inputs, output, size_dict, optimize
-            )
+            key = hash_contraction(inputs, output, size_dict, optimize)
+            try:
+                path = _PATH_CACHE[key]
+            except KeyError:
+                path = _PATH_CACHE[key] = find_path(
+                    inputs, output, size_dict, optimize
+                )
+        except TypeError:
+            # unhashable arguments, e.g. terms given as lists and not
+            # canonicalized: just don't cache (as for expressions)
+            path = find_path(inputs, output, size_dict, optimize)
     else:
         path = find_path(inputs, output, size_dict, optimize)
 
